@@ -29,7 +29,14 @@ func init() {
 
 var c17Strings = []string{"", "x", "default", "clickhouse/ch-go", "\xff\xfe\x00non-utf8\x80", strings.Repeat("L", 300), "with space", "ünïcödé", "a=b,c"}
 
+// c17Blank makes the field generators return empty strings / zeros (single-threaded shards only):
+// used by C06's cap regime so that a shifted stream holds no garbage lengths.
+var c17Blank bool
+
 func c17Str(rng *rand.Rand) string {
+	if c17Blank {
+		return ""
+	}
 	if rng.Intn(8) == 0 {
 		b := make([]byte, rng.Intn(40))
 		rng.Read(b)
@@ -39,6 +46,9 @@ func c17Str(rng *rand.Rand) string {
 }
 
 func c17Int(rng *rand.Rand) uint64 {
+	if c17Blank {
+		return 0
+	}
 	switch rng.Intn(7) {
 	case 0:
 		return 0
@@ -57,6 +67,9 @@ func c17Int(rng *rand.Rand) uint64 {
 }
 
 func c17U64(rng *rand.Rand) uint64 {
+	if c17Blank {
+		return 0
+	}
 	if rng.Intn(6) == 0 {
 		return math.MaxUint64
 	}
@@ -90,7 +103,7 @@ func atEOF(rd *proto.Reader) bool {
 }
 
 func genTrace(rng *rand.Rand) *ref.Trace {
-	if rng.Intn(2) == 0 {
+	if c17Blank || rng.Intn(2) == 0 {
 		return nil
 	}
 	t := &ref.Trace{}
@@ -170,6 +183,9 @@ func maskInfo(c ref.ClientInfo, rev int) ref.ClientInfo {
 
 func genSettings(rng *rand.Rand, custom bool) []ref.Setting {
 	n := rng.Intn(4)
+	if c17Blank {
+		n = 0
+	}
 	var out []ref.Setting
 	for i := 0; i < n; i++ {
 		k := c17Str(rng)
